@@ -9,7 +9,8 @@ namespace GqlgenVerif.GoFmt
 
 theorem goFmt_cons_ne (c : Nat) (rest : Bytes) (as : List Bytes) (h : c ≠ 0x25) :
     goFmt (c :: rest) as = c :: goFmt rest as := by
-  simp [goFmt, h]
+  rw [goFmt.eq_def]
+  simp [h]
 
 /-- a literal without `%` and no operands is written as it is -/
 theorem goFmt_plain (s : Bytes) (h : 0x25 ∉ s) : goFmt s [] = s := by
@@ -22,7 +23,8 @@ theorem goFmt_plain (s : Bytes) (h : 0x25 ∉ s) : goFmt s [] = s := by
 
 /-- `%s` with an operand, in front of a suffix without `%`: the operand verbatim, whatever it contains -/
 theorem goFmt_verb_s (suf p : Bytes) (h : 0x25 ∉ suf) : goFmt (0x25 :: 0x73 :: suf) [p] = p ++ suf := by
-  simp [goFmt, goFmt_plain suf h]
+  rw [goFmt.eq_def]
+  simp [goFmt_plain suf h]
 
 /-- one `%s` between literals without `%`: `pre ++ operand ++ suf` for all operands -/
 theorem goFmt_one_verb (pre suf p : Bytes) (h1 : 0x25 ∉ pre) (h2 : 0x25 ∉ suf) :
